@@ -74,7 +74,15 @@ def main(tier):
     quick = tier != "thorough"
     mc = run_tlc("PyDRexMC", workers=16, timeout=1500)
     chk.add_tlc("PyDRexMC", mc, "Layer-B machine, all reachable states: AppendOnly (one snapshot per update, earlier ones untouched), ShapeOK, FailureAtomic")
-    quiet_pydrex()
+    pd0 = quiet_pydrex()
+    # call history of the process: some other client code has already run a coarse "preview" update with loose solver
+    # options (documented pass-through keywords).  Options given to one call are that call's: every update below relies
+    # on the defaults and is judged against the stated budget.
+    try:
+        pd0.Mineral(phase=0, fabric=0, regime=4, n_grains=5, seed=3).update_orientations(
+            layerb.make_params(dict(M=125, chi=3, asm=[0], phiOl=10, x=[5, 0])), np.eye(3), lambda t, x: layerb.FLOWS["ss_xz"], (0.0, 0.2, lambda t: np.zeros(3)), rtol=5e-2, atol=5e-2)
+    except Exception:  # noqa: BLE001 - the preview itself is not judged
+        pass
     # (content terms double with every update: histories of 40 calls made TLC's output and heap grow to tens of GB;
     #  long histories are covered by the dedicated 13-update runs below and by C17's 33..128-snapshot traces)
     num = 50 if quick else 320
